@@ -46,7 +46,7 @@ ParamsDiff(ep, gp) ==
 NumsOk(e, g) == LET ns == M!NumbersText(e.pat, e.eff, 0 - 1) IN
                 Len(ns) > 4 \/ \A j \in 1..Len(ns) : g.nums[j] = ns[j]
 LogDiff(elog, glog) ==
-  LET called == SelectSeq(elog, LAMBDA e : e.tag # 0) IN
+  LET called == SelectSeq(elog, LAMBDA e : e.tag # 0 /\ e.tag < 1000) IN      \* entries with tag >= 1000 have no callback: nothing is invoked
   IF Len(called) # Len(glog) THEN {"log.count"}
   ELSE UNION {  (IF called[i].tag # glog[i].tag THEN {"log.tag"} ELSE {})
            \cup (IF called[i].eff # glog[i].raw THEN {"log.header"} ELSE {})
